@@ -575,6 +575,11 @@ func genSession14(c *Chooser) Session {
 	if c.Chance(1, 10) {
 		n := []string{"out", "patched"}[c.Int(2)]
 		s.Links = append(s.Links, [2]string{n, n + ".real"})
+	} else if c.Chance(1, 12) {
+		// or a named pipe somebody reads (`-o >(cmd)`): the bytes arrive, the
+		// status is the usual one, and the pipe stays a pipe
+		n := []string{"out", "patched"}[c.Int(2)]
+		s.Links = append(s.Links, [2]string{n, fifoMark})
 	}
 	// a stale earlier result may already sit where -o is going to write
 	if c.Chance(1, 3) {
@@ -585,6 +590,9 @@ func genSession14(c *Chooser) Session {
 					if l[0] == n {
 						n = l[1] // the stale result sits where the link points to
 					}
+				}
+				if n == fifoMark {
+					continue // a pipe holds nothing from earlier
 				}
 				s.Files = append(s.Files, File{n, Blob(stale)})
 			}
